@@ -1,5 +1,6 @@
 use crate::engine::{CaseResult, Tier};
 pub mod c01;
+pub mod c02;
 pub mod c03;
 pub mod c13;
 pub mod common;
@@ -7,6 +8,7 @@ pub mod common;
 pub fn run(id: &str, tier: Tier, seed: u64) -> i32 {
     match id {
         "C01" => c01::run(tier, seed),
+        "C02" => c02::run(tier, seed),
         "C03" => c03::run(tier, seed),
         "C13" => c13::run(tier, seed),
         _ => {
@@ -19,6 +21,7 @@ pub fn run(id: &str, tier: Tier, seed: u64) -> i32 {
 pub fn replay(id: &str, case: &serde_json::Value) -> CaseResult {
     match id {
         "C01" => c01::replay(case),
+        "C02" => c02::replay(case),
         "C03" => c03::replay(case),
         "C13" => c13::replay(case),
         _ => panic!("no check for {}", id),
